@@ -656,8 +656,79 @@ def noblock(plan):
     return p
 
 
+def plan_lifecycle(length):
+    base = Cp.plan_multi(['tx', 'pubsub', 'str', 'list', 'server', 'key'], 0, churn=False)
+
+    def plan(s, rng):
+        g = Cp.make_gen(s, rng)
+        live = [1, 2, 3]
+        for c in live:
+            yield ('open', c)
+        for f in gen.SEED_COMMANDS[:6]:
+            yield ('cmd', 1, f)
+        nextc = 4
+        up = True
+        for _ in range(length):
+            r = rng.random()
+            if r < 0.08:
+                up = not up
+                yield ('conn', 1 if up else 0)
+            elif r < 0.16 and len(live) > 1 and up:
+                c = rng.choice(live)
+                live.remove(c)
+                yield ('close', c) if rng.random() < 0.6 else ('gc', c)
+            elif r < 0.24:
+                live.append(nextc)
+                if up:
+                    yield ('open', nextc)
+                    nextc += 1
+                else:
+                    live.pop()
+            elif r < 0.28:
+                yield ('adv', rng.choice([1, 1000]))
+            else:
+                live2 = [x for x in live if s.impl.socks[x]._parser.gi_frame is not None] or live
+                c = rng.choice(live2)
+                fam = rng.choice(['tx', 'pubsub', 'pubsub', 'str', 'list', 'server', 'key'])
+                yield ('cmd', c, g.command(rng.choice(gen.FAMILY[fam])))
+        if not up:
+            yield ('conn', 1)
+        yield ('cmd', live[0], [b'publish', b'ch1', b'm'])
+    return plan
+
+
+def mon_outage(session, ev, name, before, out_i, crash_i):
+    if before is None or before['connected']:
+        return
+    after = session.impl.snapshot_struct()
+    if crash_i != 'ConnectionError' or out_i:
+        Mn.add(session, 'C20', 'outage_no_effect', '%r during outage: crash=%r output=%r' % (ev[2], crash_i, out_i))
+    b2, a2 = dict(before), dict(after)
+    for d in (b2, a2):
+        d.pop('now', None)
+    if b2 != a2:
+        Mn.add(session, 'C20', 'outage_no_effect', 'state changed during outage by %r' % (ev[2],))
+
+
+def run_C20(res, tier, seed, t_end, bad):
+    Cp.run_campaign(res, 'C20', plan_lifecycle(70), budget(tier, 40, 800), seed, None, (mon_outage, Mn.mon_track_queue, Mn.mon_pubsub), deadline=t_end)
+    if not res.findings:
+        import clientlevel
+        clientlevel.run_C20(res, tier, seed, t_end)
+
+
+def run_C13(res, tier, seed, t_end, bad):
+    plan_q = Cp.plan_multi(['server', 'str', 'key', 'list', 'ttl', 'tx'], 70, churn=False, weights=[4, 2, 2, 1, 1, 1])
+    plan_t = Cp.plan_multi(['server', 'str', 'key', 'list', 'ttl', 'tx', 'set'], 90, weights=[4, 2, 2, 1, 1, 1, 1])
+    Cp.run_campaign(res, 'C13', plan_q if tier == 'quick' else plan_t, budget(tier, 40, 800), seed, PROPS['C13']['scope'], OBSERVERS['C13'], deadline=t_end)
+    if not res.findings:
+        import clientlevel
+        clientlevel.run_C13(res, tier, seed, t_end)
+
+
 RUNNERS = {
     'C11': run_C11,
+    'C20': run_C20,
     'C14': run_C14,
     'C01': generic('C01', Cp.plan_single(['str', 'key', 'ttl'], 60, select=0.03), Cp.plan_single(['str', 'key', 'ttl'], 80, select=0.03), 60, 1200),
     'C02': generic('C02', Cp.plan_single(['list', 'hash', 'set', 'sort', 'key'], 60), Cp.plan_single(['list', 'hash', 'set', 'sort', 'key'], 80), 60, 1200),
@@ -673,8 +744,7 @@ RUNNERS = {
     'C09': generic('C09', plan_removal(60), plan_removal(90), 30, 500, OBSERVERS['C09']),
     'C10': generic('C10', Cp.plan_multi(['pubsub', 'pubsub', 'tx', 'str', 'server'], 70, nconn=(2, 3, 4)),
                    Cp.plan_multi(['pubsub', 'pubsub', 'tx', 'str', 'server'], 90, nconn=(2, 3, 4)), 40, 800, OBSERVERS['C10']),
-    'C13': generic('C13', Cp.plan_multi(['server', 'str', 'key', 'list', 'ttl', 'tx'], 70, churn=False, weights=[4, 2, 2, 1, 1, 1]),
-                   Cp.plan_multi(['server', 'str', 'key', 'list', 'ttl', 'tx', 'set'], 90, weights=[4, 2, 2, 1, 1, 1, 1]), 40, 800, OBSERVERS['C13']),
+    'C13': run_C13,
     'C15': run_C15,
     'C16': run_C16,
     'C17': run_C17,
